@@ -836,6 +836,7 @@ var writerClauses = map[int]string{
 	83: "a released buffer was touched, or a different buffer was returned",
 	84: "WriteControl touched the pool, or WritePreparedMessage took a buffer",
 	85: "a pool buffer is held although no message is in progress",
+	86: "a message writer handed bytes to the transport while the connection did not hold the pool buffer (after Put / before Get)",
 	160: "a write call reported success after a close frame had been sent",
 	161: "a valid write request after a close frame did not fail with ErrCloseSent",
 	162: "NextWriter succeeded after a close frame had been sent",
